@@ -8,6 +8,7 @@
 //   replay_unauth anonymous-auth  -> control: <auth mechanism='ANONYMOUS'/> (a mechanism QXmppSaslServer::create builds although it is never offered) must not authenticate
 //   replay_unauth digest-unknown-user -> control: DIGEST-MD5 login as a user the checker does not know, response computed with the EMPTY password: must be refused
 //   replay_unauth digest-known-user   -> control: DIGEST-MD5 login of a known user with the right password is accepted (reports REPRODUCED if it is NOT)
+//   replay_unauth digest-replay   -> control: a DIGEST-MD5 <response/> recorded from a successful login is sent again on a NEW connection (new server nonce): must be refused
 //   replay_unauth wrong-password  -> control: one PLAIN <auth/> with a wrong password must be refused and leave the connection without a JID
 //   replay_unauth pipelined-auth  -> two PLAIN <auth/> in one segment (own valid credentials, then victim + wrong password):
 //                                    which JID does the server assign when the first reply arrives?                       (finding C16-F2)
@@ -91,6 +92,7 @@ static QMap<QByteArray, QByteArray> parseDirectives(const QByteArray &ba)
 
 struct Peer;
 static bool digestLogin(Peer &c, const QByteArray &user, const QByteArray &pw);
+static QByteArray g_lastDigestResponse;   // the <response/> element digestLogin sent last (what an eavesdropper records)
 
 static void onCrash(int)
 {
@@ -181,7 +183,8 @@ static bool digestLogin(Peer &c, const QByteArray &user, const QByteArray &pw)
     const QByteArray msg = "username=\"" + user + "\",realm=\"" + realm + "\",nonce=\"" + nonce + "\",cnonce=\"" + cnonce + "\",nc=" + nc +
         ",qop=auth,digest-uri=\"" + digestUri + "\",response=" + resp + ",charset=utf-8";
     const int before = c.rx.size();
-    c.send("<response xmlns='urn:ietf:params:xml:ns:xmpp-sasl'>" + msg.toBase64() + "</response>");
+    g_lastDigestResponse = "<response xmlns='urn:ietf:params:xml:ns:xmpp-sasl'>" + msg.toBase64() + "</response>";
+    c.send(g_lastDigestResponse);
     if (!waitFor([&] { return c.rx.indexOf("</challenge>", before) >= 0 || c.rx.indexOf("<failure", before) >= 0 || c.rx.contains("<success"); }, 1500) || c.rx.indexOf("<failure", before) >= 0) {
         return false;
     }
@@ -321,6 +324,28 @@ int main(int argc, char **argv)
             std::printf("control: DIGEST-MD5 login as 'ghost' (unknown to the checker) with the empty password accepted: %s; resource bound: %s\n", ok ? "YES" : "no", bound ? "YES" : "no");
             violated = ok || bound;
         }
+    } else if (mode == "digest-replay") {
+        Peer victim("VICTIM");
+        if (!victim.open(port) || !digestLogin(victim, "victim", "victim-pw")) {
+            std::printf("victim could not log in with DIGEST-MD5\n");
+            return 2;
+        }
+        Peer attacker("ATTACKER");
+        if (!attacker.open(port)) {
+            return 2;
+        }
+        attacker.send("<auth xmlns='urn:ietf:params:xml:ns:xmpp-sasl' mechanism='DIGEST-MD5'/>");
+        waitFor([&] { return attacker.rx.contains("</challenge>"); }, 1500);
+        const int before = attacker.rx.size();
+        attacker.send(g_lastDigestResponse);    // computed for the nonce of the victim's exchange, not for this one
+        waitFor([&] { return attacker.rx.indexOf("</challenge>", before) >= 0 || attacker.rx.indexOf("<failure", before) >= 0; }, 1500);
+        bool success = false;
+        if (attacker.rx.indexOf("</challenge>", before) >= 0) {
+            attacker.send("<response xmlns='urn:ietf:params:xml:ns:xmpp-sasl'/>");
+            success = waitFor([&] { return attacker.rx.contains("<success"); }, 1500);
+        }
+        std::printf("control: recorded DIGEST-MD5 response replayed on a new connection accepted: %s\n", success ? "YES" : "no");
+        violated = success;
     } else if (mode == "wrong-password") {
         QString jidAtRefusal;
         QObject::connect(&server, &QXmppServer::updateCounter, [&](const QString &counter) {
